@@ -7,6 +7,7 @@ import (
 	"io"
 	"reflect"
 	"sort"
+	"strings"
 	"sync"
 	"time"
 
@@ -850,4 +851,77 @@ func (rn *Runner) rebuild(got []*spb.GetResponse, g *GetReq) (out any) {
 		return map[string]any{"error": err.Error()}
 	}
 	return st
+}
+
+// Exported helpers for other drivers that record wire traces.
+
+// AbsResp abstracts a ModifyResponse.
+func AbsResp(r *spb.ModifyResponse) map[string]any { return absResp(r) }
+
+// AbsEnd abstracts the final status of an RPC.
+func AbsEnd(err error) map[string]any { return absEnd(err) }
+
+// AFTName is the abstract name of an AFT type.
+func AFTName(a spb.AFTType) string {
+	switch a {
+	case spb.AFTType_ALL:
+		return "ALL"
+	case spb.AFTType_NEXTHOP:
+		return "nh"
+	case spb.AFTType_NEXTHOP_GROUP:
+		return "nhg"
+	case spb.AFTType_IPV4:
+		return "v4"
+	case spb.AFTType_IPV6:
+		return "v6"
+	case spb.AFTType_MPLS:
+		return "mpls"
+	}
+	return strings.ToLower(a.String())
+}
+
+// Rebuild reconstructs and projects a RIB from Get responses.
+func Rebuild(got []*spb.GetResponse) any { return (&Runner{}).rebuild(got, nil) }
+
+// GetEvent builds the trace event for one Get.
+func GetEvent(g *GetReq, got []*spb.GetResponse, err error, rebuild func([]*spb.GetResponse) any) Event {
+	entries := []map[string]any{}
+	bad := ""
+	for _, r := range got {
+		for _, e := range r.GetEntry() {
+			ent := getEntryMsg(e)
+			if ent == nil {
+				bad = "entry without payload"
+				continue
+			}
+			p, perr := abs.EntryParts(ent)
+			if perr != nil {
+				bad = perr.Error()
+				continue
+			}
+			x := map[string]any{"ni": e.GetNetworkInstance(), "kind": p.Kind, "pl": abs.PLName(p.Hash)}
+			switch p.Kind {
+			case "nh":
+				x["key"] = p.Key
+				x["plq"] = abs.Unquirk(x["pl"].(string))
+			case "nhg":
+				x["key"], x["nhs"], x["bk"] = p.Key, p.NHs, p.BK
+			default:
+				x["key"], x["g"], x["gni"] = p.Kind+":"+p.Key, p.G, p.GNI
+			}
+			entries = append(entries, x)
+		}
+	}
+	ev := Event{"ev": "get", "g": g, "end": absEnd(err), "entries": entries}
+	if bad != "" {
+		ev["bad"] = bad
+	}
+	if codeOf(err) == codes.OK {
+		rb := rebuild(got)
+		ev["rebuild"], ev["rebuildq"] = rb, rb
+		if st, ok := rb.(abs.RIBState); ok {
+			ev["rebuildq"] = abs.UnquirkRIB(st)
+		}
+	}
+	return ev
 }
